@@ -489,17 +489,29 @@ let judge _id (c : cursor) (r : cursor) : bool * string =
     let nset = List.length (List.filter (function `U _ -> false | _ -> true) ops) in
     (nops > 0 && not !ill, if !ill then "wolf-illcond" else if nset > 0 then "wolf-setters" else "wolf")
   | "mpol" ->
-    let s = next_int c in let a = next_int c in
-    let rows = List.init s (fun _ -> List.init a (fun _ -> next_q c)) in
+    let s_ = next_int c in let a = next_int c in
+    let rows = List.init s_ (fun _ -> List.init a (fun _ -> next_q c)) in
     let _seed = next_int c in
     let site = "MDP::Policy" in
-    let t = chunks a (next_qs r) in let pr = chunks a (next_qs r) in
-    let samp = List.init s (fun _ -> let u = next_q r in let act = next_nat r in (u, act)) in
-    List.iter2 (fun row prow -> o_dist "policy_rows_dist" (site ^ "::getPolicy") true row a; o_agree "policy_table_eq_query" site row prow) t pr;
-    List.iteri (fun i (_, act) -> o_support "sample_prob_in_support" (site ^ "::sampleAction") (List.nth t i) act) samp;
-    List.iter2 (fun row m -> c_vec true "policy_matrix" (site ^ "::getPolicy") row m) t rows;
-    List.iteri (fun i (u, act) -> c_nat "sample_prob" (site ^ "::sampleAction") act (sample_prob (List.nth rows i) u)) samp;
-    (s > 1, "mpol")
+    let thrown = next_int r <> 0 in
+    (* O: the constructor accepts exactly the matrices all of whose rows are probability vectors
+       (cases keep every row sum either within 1e-9 of one or further than 1e-3 from it) *)
+    let ok = is_prob_matrixb rows in
+    if thrown && ok then oracle_fail "policy_ctor_rows_dist" (site ^ "::Policy") "a valid policy matrix was rejected";
+    if (not thrown) && not ok then begin
+      (* what was accepted is not a policy: name the offending row *)
+      let bad = List.find (fun row -> not (prob_rowb row)) rows in
+      oracle_fail "policy_ctor_rejects" (site ^ "::Policy") ("accepted a matrix with the row " ^ str_qs bad)
+    end;
+    if thrown then (true, "mpol-rejected") else begin
+      let t = chunks a (next_qs r) in let pr = chunks a (next_qs r) in
+      let samp = List.init s_ (fun _ -> let u = next_q r in let act = next_nat r in (u, act)) in
+      List.iter2 (fun row prow -> o_dist "policy_rows_dist" (site ^ "::getPolicy") false row a; o_agree "policy_table_eq_query" site row prow) t pr;
+      List.iteri (fun i (_, act) -> o_support "sample_prob_in_support" (site ^ "::sampleAction") (List.nth t i) act) samp;
+      List.iter2 (fun row m -> c_vec true "policy_matrix" (site ^ "::getPolicy") row m) t rows;
+      List.iteri (fun i (u, act) -> c_nat "sample_prob" (site ^ "::sampleAction") act (sample_prob (List.nth rows i) u)) samp;
+      (s_ > 1, "mpol")
+    end
   | "pga" ->
     let s = next_int c in let a = next_int c in
     let rows = List.init s (fun _ -> List.init a (fun _ -> next_q c)) in
@@ -509,6 +521,8 @@ let judge _id (c : cursor) (r : cursor) : bool * string =
         match next c with
         | "u" -> `U (next_int c)
         | "r" -> `R (next_q c) | "p" -> `P (next_q c)
+        | "q" -> let si = next_int c in let ai = next_int c in let v = next_q c in `Q (si, ai, v)
+        | "z" -> let si = next_int c in let ai = next_int c in let v = next_q c in `Q (si, ai, v)
         | t -> failwith ("pga op " ^ t)) in
     let _seed = next_int c in
     let site = "PGAAPPPolicy" in
@@ -518,6 +532,7 @@ let judge _id (c : cursor) (r : cursor) : bool * string =
     let steps = List.map (fun op ->
         match op with
         | `U _ -> let tb = rd_tables () in (op, None, tb)
+        | `Q (si, ai, _) -> let v = next_q r in let tb = rd_tables () in (`Q (si, ai, v), None, tb)   (* the value actually written *)
         | _ -> let thrown = next_int r <> 0 in let g1 = next_q r in let g2 = next_q r in let tb = rd_tables () in (op, Some (thrown, g1, g2), tb)) ops in
     let samp = List.init s (fun _ -> let u = next_q r in let act = next_nat r in (u, act)) in
     (* O: what isProbability checks (entries >= 0, sum within 1e-6 of one), table = queries;
@@ -546,6 +561,7 @@ let judge _id (c : cursor) (r : cursor) : bool * string =
     let near x y = q_lt (q_abs (q_sub x y)) e8 in
     let ill = ref 0 and boundary = ref 0 in
     let prev = ref (fst t0) in
+    let qt = Array.of_list (List.map Array.of_list rows) in
     lr := lr0; pl := pl0;
     List.iter (fun (op, _, (t, _)) ->
         match op with
@@ -553,8 +569,10 @@ let judge _id (c : cursor) (r : cursor) : bool * string =
           List.iteri (fun i row -> c_vec true "pga_other_rows" (site ^ "::setLearningRate") (List.nth t i) row) !prev; prev := t
         | `P v -> if not (neg_throws v) then pl := v;
           List.iteri (fun i row -> c_vec true "pga_other_rows" (site ^ "::setPredictionLength") (List.nth t i) row) !prev; prev := t
+        | `Q (si, ai, v) -> qt.(si).(ai) <- v;
+          List.iteri (fun i row -> c_vec true "pga_other_rows" (site ^ "::q_") (List.nth t i) row) !prev; prev := t
         | `U sidx ->
-        let q = List.nth rows sidx in
+        let q = Array.to_list qt.(sidx) in
         let p = List.nth !prev sidx in
         let g = pga_grad_row !lr !pl q p in
         let ps = possum g in
@@ -568,7 +586,8 @@ let judge _id (c : cursor) (r : cursor) : bool * string =
         prev := t) steps;
     List.iteri (fun i (u, act) -> c_nat "sample_prob" (site ^ "::sampleAction") act (sample_prob (List.nth tfinal i) u)) samp;
     let nset = List.length (List.filter (function `U _ -> false | _ -> true) ops) in
-    (nops > 0, if !boundary > 0 then "pga-boundary" else if nset > 0 then "pga-setters" else "pga")
+    let nq = List.length (List.filter (function `Q _ -> true | _ -> false) ops) in
+    (nops > 0, if nq > 0 then "pga-qswitch" else if !boundary > 0 then "pga-boundary" else if nset > 0 then "pga-setters" else "pga")
   | "esrl" ->
     let an = next_nat c in let a = ioN an in
     let pa = next_q c in
